@@ -85,8 +85,6 @@ def body_fits(a, tk):
         if n.kind == 'segment' and n.id == 'ISA':
             nodes['ISA'] = n
     for s in tk.segs:
-        if s.id == 'TA1':
-            continue
         node = nodes.get(s.id)
         if node is None:
             return False, 'segment %s not in the %s map' % (s.id, a.kind)
